@@ -390,7 +390,7 @@ end
 def pyEq (a b : Msg) : Bool := segEq a.hdr b.hdr && segEq a.body b.body && segEq a.trl b.trl
 
 mutual
-/-- equality with group instances compared as plain dicts (the repair proposed in fixes/C13-group-eq-order.md) -/
+/-- equality with group instances compared as plain dicts (the code since /repo 02aab28, fixes/C13-group-eq-order.md) -/
 def valEqD : Val → Val → Bool
   | .grp a, .grp b => instsEqD a b
   | .grp _, _ => false
@@ -412,7 +412,7 @@ def valEqDAux : Val → Val → Bool
   | a, b => primEq a b
 end
 
-/-- `Message.__eq__` after the repair: top-level segments still compare as OrderedDicts, group instances as dicts -/
+/-- `Message.__eq__` of the code as it is (after /repo 02aab28): top-level segments still compare as OrderedDicts, group instances as dicts -/
 def segEqTop : List (Nat × Val) → List (Nat × Val) → Bool
   | [], [] => true
   | (k, v) :: s, (k', v') :: s' => k == k' && valEqD v v' && segEqTop s s'
